@@ -545,6 +545,11 @@ func (t *Tracer) walkStructField(sv ssa.Value, field int, seen map[ssa.Value]boo
 					if e.Site == nil {
 						continue
 					}
+					// a compiler-made wrapper (pointer-receiver form of a value
+					// method, bound-method thunk) that nothing calls
+					if e.Caller.Func.Synthetic != "" && len(e.Caller.In) == 0 {
+						continue
+					}
 					args := e.Site.Common().Args
 					if e.Site.Common().IsInvoke() || len(args) != len(fn.Params) {
 						continue
